@@ -250,6 +250,9 @@ class Host:
     def log(self, fac, sev, text):
         return self.cmd("LOG %s %d %s" % (fac, sev, text))
 
+    def hookall(self):
+        return self.cmd("HOOKALL")
+
     def dumpconf(self):
         return self.cmd("DUMPCONF")
 
